@@ -12,7 +12,7 @@ variable {α : Type}
 
 structure St (α : Type) where
   heap : Array (Nat × α)      -- (iterator index, current item)
-  rests : Array (List α)      -- what each iterator has not yielded yet
+  rests : List (List α)       -- what each iterator has not yielded yet
 
 /-- heap order: `cmp(a.item, b.item) < 0` -/
 def hlt (cmp : α → α → Int) (a b : Nat × α) : Bool := decide (cmp a.2 b.2 < 0)
@@ -20,10 +20,10 @@ def hlt (cmp : α → α → Int) (a b : Nat × α) : Bool := decide (cmp a.2 b.
 /-- constructor part: pull the first item of each iterator, push it if there is one -/
 def initGo (cmp : α → α → Int) : List (List α) → Nat → St α → St α
   | [], _, s => s
-  | [] :: rs, i, s => initGo cmp rs (i + 1) ⟨s.heap, s.rests.push []⟩
-  | (x :: xs) :: rs, i, s => initGo cmp rs (i + 1) ⟨Heap.push (hlt cmp) s.heap (i, x), s.rests.push xs⟩
+  | [] :: rs, i, s => initGo cmp rs (i + 1) ⟨s.heap, s.rests ++ [[]]⟩
+  | (x :: xs) :: rs, i, s => initGo cmp rs (i + 1) ⟨Heap.push (hlt cmp) s.heap (i, x), s.rests ++ [xs]⟩
 
-def init (cmp : α → α → Int) (runs : List (List α)) : St α := initGo cmp runs 0 ⟨#[], #[]⟩
+def init (cmp : α → α → Int) (runs : List (List α)) : St α := initGo cmp runs 0 ⟨#[], []⟩
 
 /-- the pop / pull-next / push loop; the popped items in order -/
 def pops (cmp : α → α → Int) : Nat → St α → List α
@@ -34,7 +34,7 @@ def pops (cmp : α → α → Int) : Nat → St α → List α
     | some (ix, h1) =>
       match s.rests.getD ix.1 [] with
       | [] => ix.2 :: pops cmp fuel ⟨h1, s.rests⟩
-      | y :: ys => ix.2 :: pops cmp fuel ⟨Heap.push (hlt cmp) h1 (ix.1, y), s.rests.setIfInBounds ix.1 ys⟩
+      | y :: ys => ix.2 :: pops cmp fuel ⟨Heap.push (hlt cmp) h1 (ix.1, y), s.rests.set ix.1 ys⟩
 
 def total (runs : List (List α)) : Nat := (runs.map List.length).sum
 
